@@ -233,7 +233,10 @@ class Summaries(object):
                         break
                 if res:
                     break
-        self._may[ck] = res
+        # a negative answer found with a reduced depth budget (or inside a cycle) is not final: only positive answers and
+        # answers of top-level queries are remembered
+        if res or (depth == self.max_depth and len(_stack) == 1):
+            self._may[ck] = res
         return res
 
     def must(self, fn, key, pred, depth=None, _stack=None):
@@ -258,7 +261,8 @@ class Summaries(object):
                         return self.must(g, key, pred, depth - 1, _stack2)
             return False
         ok, _ = every_path_passes(fn, 'entry', passes)
-        self._must[ck] = ok
+        if ok or (depth == self.max_depth and not _stack):
+            self._must[ck] = ok
         return ok
 
     def elem_must(self, fn, pos, e, key, pred):
